@@ -228,6 +228,17 @@ def build_cases(cx):
         ("sphere 0.5 4 tr 10 0 0 cube 1 1 1 1 cube 6 6 6 1 tr 10 0 0 compose ; meas gap 1.0 2.0", "gap-nested-2nd-component"),
         ("cube 8 8 8 1 cube 6 6 6 1 sub cube 1 1 1 1 ; meas gap 1.0 3.0", "gap-in-cavity"),
     ]
+    # solids simplified out of existence (smaller than the tolerance): the result has no vertices, so its tight box is
+    # the empty box (min = +inf, max = -inf: tight_min [] / tight_max [] of the model, what Manifold() reports);
+    # controls: a component that survives next to one that vanishes
+    fixed += [
+        ("tet sc 0.001 0.001 0.001 settol 1.0 ; meas", "collapsed"),
+        ("tet sc 0.001 0.001 0.001 simplify 1.0 ; meas", "collapsed"),
+        ("sphere 0.01 8 tr 3 4 5 settol 0.5 ; meas", "collapsed"),
+        ("cube 0.01 0.02 0.03 1 rot 10 20 30 tr 1 1 1 simplify 2.0 ; meas", "collapsed"),
+        ("tet sc 0.001 0.001 0.001 cube 1 1 1 0 tr 5 0 0 add settol 0.5 ; meas", "collapsed-partly"),
+        ("sphere 0.01 8 cube 1 1 1 0 tr 5 0 0 compose simplify 0.25 ; meas decomp", "collapsed-partly"),
+    ]
     for p, k in fixed:
         cases.append((str(len(cases)), "CASE %d %s" % (len(cases), p), k))
     for _ in range(n_solid):
@@ -308,7 +319,7 @@ def run(cx):
     for l in out_impl.splitlines():
         if l.startswith("Q "):
             t = l.split()
-            rep[t[1]] = dict(nv=int(t[10]), nt=int(t[11]), nprop=int(t[12]), empty=int(t[13]), genus=int(t[14]), status=int(t[15]))
+            rep[t[1]] = dict(nv=int(t[10]), nt=int(t[11]), nprop=int(t[12]), empty=int(t[13]), genus=int(t[14]), status=int(t[15]), bbox=t[4:10])
     ended, dist, nontriv, checked = set(), {}, set(), 0
     stats = dict(meas=0, gap=0, gap_clamped=0, gap_zero=0, gap_interior=0, ray=0, ray_generic=0, ray_hits=0, wind=0, wind_inside=0, wind_skipped=0,
                  slice=0, slice_samples=0, slice_skipped=0, proj=0, proj_samples=0, decomp=0, decomp_multi=0, tritri=0, tritri_zero=0, genus_pos=0)
@@ -340,6 +351,11 @@ def run(cx):
                 viol("area-differs-from-exact-sum", cid, "SurfaceArea() is outside the rounding bound of the exact triangle-area sum of the export", l)
             if not v[2]:
                 viol("bbox-not-tight", cid, "BoundingBox() is not bit-equal to the tight box of the exported vertices", l)
+            if r and r["status"] == 0 and v[3] == 0:
+                # no exported vertex: the tight box is the empty box (tight_min [] = +inf, tight_max [] = -inf)
+                stats["meas_empty"] = stats.get("meas_empty", 0) + 1
+                if r["bbox"] != ["7ff0000000000000"] * 3 + ["fff0000000000000"] * 3:
+                    viol("bbox-of-empty-not-empty", cid, "the export has no vertices but BoundingBox() is not the empty box (min +inf, max -inf): bits %s" % " ".join(r["bbox"]), l)
             if r and r["status"] == 0:
                 if r["nv"] != v[6] or r["nt"] != v[4] or v[5] != 3 + r["nprop"] or r["empty"] != int(v[4] == 0):
                     viol("counts-differ-from-export", cid, "NumVert/NumTri/NumProp/IsEmpty %r differ from the export (verts %d, tris %d, numProp %d)" % (r, v[6], v[4], v[5]), l)
